@@ -47,11 +47,27 @@ def _feed(args):
         wmc >> wm
         wmc.mappings.values[0].controller = min(cls.controllers[cname].number, len(wcls.controllers))
         try:
+            for i_ in range(257):           # ... and that MultiCtl had a triangle drawn into its curve, in place
+                wmc.curve.values[i_] = 32768 - abs(128 - i_) * 256
             wmc.value = 16384
         except Exception:
             pass
-    p = api.Project()
-    target = p.new_module(cls)
+    if seed % 5 == 1 and t != "MetaModule":
+        # composition: the MultiCtl and its target live in the embedded project of an API-built MetaModule that exposes
+        # the very same target controller as a user-defined controller
+        holder = api.m.MetaModule()
+        p = holder.project
+        target = p.new_module(cls)
+        holder.mappings.values[0].module = target.index
+        holder.mappings.values[0].controller = cls.controllers[cname].number - 1
+        holder.user_defined_controllers = 1
+        try:
+            holder.update_user_defined_controllers()
+        except Exception:
+            pass
+    else:
+        p = api.Project()
+        target = p.new_module(cls)
     target.name = label
     mc = p.new_module(api.m.MultiCtl)
     mc >> target
